@@ -34,13 +34,14 @@ VALUES = {
     "int": [0, 1, -1, 2, 10, BIG, BIG + 1, BIG - 1, -BIG, 42],
     "float": [0.0, -0.0, 1.0, -1.0, 1.5, 2.0, 0.1, 1e100, float(BIG), 9007199254740993.0, 10.0, 42.0, -2.5, 1e-7],
     "str": ["", "a", "b", "ab", "aa", "A", "1", "true", "null", "\uffff", "\U00010000", "\U0001F600", "\u00e9", "a\x00",
-            "abc", "abd"],
+            "abc", "abd", "e\u0301", "\u1100\u1161", "\uac00"],
     "bool": [True, False],
     "null": [None],
     "arr": [[], [1], [True], [1.0], [0], [False], [None], [""], [[1]], [[True]], [1, 2], [2, 1], [1, [2, {"a": 1}]],
             [1, [2, {"a": True}]], ["a"], [[]], [{}]],
     "obj": [{}, {"a": 1}, {"a": True}, {"a": 1.0}, {"a": 0}, {"a": False}, {"a": None}, {"a": 1, "b": 2},
-            {"b": 2, "a": 1}, {"a": [1]}, {"a": [True]}, {"a": {"b": 0}}, {"a": {"b": False}}, {"b": 1}, {"a": ""}],
+            {"b": 2, "a": 1}, {"a": [1]}, {"a": [True]}, {"a": {"b": 0}}, {"a": {"b": False}}, {"b": 1}, {"a": ""},
+            {"b": None}, {"a": 1, "x": None}, {"a": 1, "y": None}, {"a": {"x": None}}, {"a": {"y": None}}, {"a": None, "b": None}],
 }
 KINDS = list(VALUES) + ["nothing"]
 PRODUCERS = ["literal", "rel", "abs", "value", "id", "length", "nested"]
@@ -174,9 +175,16 @@ def related(r, v):
     elif k == "str":
         opts += [v + "a", v[:-1], v.upper(), [v], ""]
     elif k == "arr":
-        opts += [[related(r, x) for x in v], v + [0], v[:-1], list(reversed(v)), {"a": v}]
+        opts += [[related(r, x) for x in v], v + [0], v[:-1], list(reversed(v)), {"a": v}, v + [None], [None] * len(v)]
     elif k == "obj":
         opts += [{kk: related(r, x) for kk, x in v.items()}, dict(reversed(list(v.items()))), {**v, "z": 0}, [v]]
+        if v:
+            # same size, one member renamed (value kept) / renamed and nulled / value nulled
+            key = r.choice(list(v))
+            other = r.choice([n for n in ("a", "b", "x", "y") if n not in v] or ["q"])
+            opts += [{(other if kk == key else kk): x for kk, x in v.items()},
+                     {(other if kk == key else kk): (None if kk == key else x) for kk, x in v.items()},
+                     {kk: (None if kk == key else x) for kk, x in v.items()}]
     return r.choice(opts)
 
 
